@@ -96,6 +96,9 @@ extern int mpt_path_add(MPT_STRUCT(path) *path, int add)
 	path->base  = data;
 	path->len   = len - path->off;
 	
+	/* path data is in array (new one for path on plain string) */
+	path->flags |= MPT_PATHFLAG(HasArray);
+	
 	/* remove persistence flag */
 	path->flags &= ~MPT_PATHFLAG(KeepPost);
 	
